@@ -350,6 +350,8 @@ def full_font(rng):
         sets.append(("arab", True))
     if rng.random() < 0.4:
         sets.append(("cyrl", True))
+    if rng.random() < 0.3:
+        sets.append(("deva", True))       # a script with TWO OpenType tags (dev2 / deva)
     if rng.random() < 0.2:
         sets = [s for s in sets if s[0] != "latin"] or sets
     gl = []
@@ -368,13 +370,15 @@ def full_font(rng):
         if rng.random() < 0.6:
             gl.append(("alaph-syr", 0x710))
             skip.append("alaph-syr")
+    if any(c == "deva" for c, _ in sets):
+        gl.append(("anusvara-deva", 0x902))
     if rng.random() < 0.3:
         gl.append(("haa-thaana", 0x780))
         skip.append("haa-thaana")
     names = [n for n, _ in gl]
     glyphs = {}
     for n, cp in gl:
-        mark = n in ("acutecomb", "fatha-ar")
+        mark = n in ("acutecomb", "fatha-ar", "anusvara-deva")
         anchors = []
         if mark:
             anchors.append({"n": "_top", "x": 0, "y": 500 * PS})
@@ -397,15 +401,26 @@ def full_font(rng):
         kerning.append(["period", "period", 10 * 4])
     r = rng.random()
     decl = []
+    tagmap = {"latin": ["latn"], "arab": ["arab"], "cyrl": ["cyrl"], "deva": ["dev2", "deva"]}
     if r < 0.35:
         decl = []
     elif r < 0.5:
         decl = ["DFLT"]
     elif r < 0.75:
-        decl = ["DFLT"] + [{"latin": "latn", "arab": "arab", "cyrl": "cyrl"}[c] for c, _ in sets[:1]]
+        decl = ["DFLT"] + [t for c, _ in sets[:1] for t in tagmap[c]]
     else:
-        decl = ["DFLT"] + [{"latin": "latn", "arab": "arab", "cyrl": "cyrl"}[c] for c, _ in sets]
-    fea = "\n".join(f"languagesystem {t} dflt;" for t in decl)
+        decl = ["DFLT"] + [t for c, _ in sets for t in tagmap[c]]
+    if "dev2" in decl and rng.random() < 0.3:
+        decl.remove(rng.choice(["dev2", "deva"]))
+    lines = []
+    langs = {"latn": ["TRK ", "ROM "], "arab": ["URD ", "KSH "], "cyrl": ["SRB "], "dev2": ["MAR ", "NEP "], "deva": ["MAR ", "HIN "], "DFLT": []}
+    for t in decl:
+        lines.append(f"languagesystem {t} dflt;")
+        # non-default language systems; the two tags of one script may declare different lists
+        for lg in langs.get(t, []):
+            if rng.random() < 0.35:
+                lines.append(f"languagesystem {t} {lg.strip()};")
+    fea = "\n".join(lines)
     ufo = {"glyphs": glyphs, "order": names, "glyphNames": names,
            "info": {"unitsPerEm": 1000, "ascender": 800, "descender": -200, "familyName": "LayoutTest", "styleName": "Regular"},
            "kerning": kerning, "kernScale": 4, "fea": fea, "lib": {"public.skipExportGlyphs": skip} if skip else {}}
